@@ -66,6 +66,27 @@ CHECKS = {
         "Crash = process kill / syscall error, not power loss; SQLite itself is trusted to implement rollback-journal recovery.",
         "6 C09",
     ),
+    "C02": (
+        "exploration",
+        "runtime monitoring: sys.monitoring flight recorder as ground truth + offline aligner over the recorded completion and log() sequences; tracer-state invariant at quiescence",
+        "Seeded generated programs covering the quantifier's function, parameter and exit kinds, with interleaved live generators and "
+        "really-suspending coroutines, run under the real trace_calls; the sequence of logger.log calls is aligned offline, in "
+        "completion order, with the interpreter's own event stream (PY_START/RESUME/YIELD/RETURN/THROW/UNWIND): exactly one trace per "
+        "resolvable completed call, right function, argument types as bound at call start, return type iff returned, yield type = "
+        "union of yields, no residue in CallTracer.traces; a control run without the recorder must log the same sequence.",
+        "sys.monitoring (CPython 3.12.1) is trusted as the account of what ran; get_type is judged by C04/C05, not here.",
+        "6 C02",
+    ),
+    "C18": (
+        "exploration",
+        "runtime monitoring: flight recorder ground truth + offline subsequence/faithfulness checker over sampled runs; binomial bound on the traced fraction",
+        "The C02 programs (always with generators that rebind parameters between yields) run at rates {None,1,2,3,10,100} under many "
+        "seeds of the global RNG: rates None/1 must equal the C02 expectation; at rates > 1 every logged trace must faithfully match a "
+        "real completion in order (argument types at PY_START), nothing may stay in tracer.traces, and the traced fraction of plain "
+        "calls must be within 6 sigma of 1/N over >= 20000 calls.",
+        "As C02.",
+        "6 C18",
+    ),
 }
 
 PENDING = {}
